@@ -28,6 +28,9 @@ type rdb struct {
 	rs     *storage.RelationService
 	tables []string
 	cap    int
+	// probeIns: per table an INSERT statement (text) used as the statement issued after the
+	// recovery of a flush-crash image; an INSERT exposes a row-id counter that went backwards
+	probeIns map[string]string
 }
 
 func dbErrKind(err error) string {
@@ -1274,6 +1277,15 @@ func runFlushCrashes(cfg *config, id int, r *hx.Rng) {
 		d.withFlushCrashPoints("create", func() {
 			if d.stmt(createText(t)) == "ok" {
 				tables = append(tables, t)
+				for k := 0; k < 8; k++ {
+					if row := [][]interface{}{genRowValues(r, t, false)}; textable(row) {
+						if d.probeIns == nil {
+							d.probeIns = map[string]string{}
+						}
+						d.probeIns[t.name] = insertText(t, row, false)
+						break
+					}
+				}
 			}
 		})
 	}
